@@ -99,18 +99,18 @@ int exec_special_op(World &w, const Op &op) {
         uint64_t nb = 99, ns = 99;
         disk_remove(cp);
         if (scen == 0) {
-            if (try_open(cp, FileMode::ReadOnly, OpenFlags::None)) w.fail("C09.refuse", "ReadOnly open of a non-existent path returned a usable File");
+            if (try_open(w.shaped(cp), FileMode::ReadOnly, OpenFlags::None)) w.fail("C09.refuse", "ReadOnly open of a non-existent path returned a usable File");
             else if (disk_exists(cp)) w.fail("C09.refuse", "ReadOnly open of a non-existent path created the file");
         } else if (scen == 1 || scen == 2) {
             FileMode m = scen == 1 ? FileMode::ReadWrite : FileMode::Overwrite;
-            if (!try_open(cp, m, OpenFlags::None, &err, &nb, &ns)) w.fail(scen == 1 ? "C09.rw-preserves" : "C09.overwrite-empties", "opening a non-existent path failed: " + err);
+            if (!try_open(w.shaped(cp), m, OpenFlags::None, &err, &nb, &ns)) w.fail(scen == 1 ? "C09.rw-preserves" : "C09.overwrite-empties", "opening a non-existent path failed: " + err);
             else if (nb || ns) w.fail("C09.overwrite-empties", "a newly created file is not empty");
-            else if (!try_open(cp, FileMode::ReadOnly, OpenFlags::None, &err)) w.fail("C09.overwrite-empties", "a newly created file cannot be reopened ReadOnly: " + err);
+            else if (!try_open(w.shaped(cp), FileMode::ReadOnly, OpenFlags::None, &err)) w.fail("C09.overwrite-empties", "a newly created file cannot be reopened ReadOnly: " + err);
         } else if (scen == 3) {
             disk_copy(w.path, cp);
-            if (!try_open(cp, FileMode::Overwrite, OpenFlags::None, &err, &nb, &ns)) w.fail("C09.overwrite-empties", "Overwrite of an existing file failed: " + err);
+            if (!try_open(w.shaped(cp), FileMode::Overwrite, OpenFlags::None, &err, &nb, &ns)) w.fail("C09.overwrite-empties", "Overwrite of an existing file failed: " + err);
             else if (nb || ns) w.fail("C09.overwrite-empties", "Overwrite left " + std::to_string(nb) + " blocks / " + std::to_string(ns) + " sections");
-            else if (!try_open(cp, FileMode::ReadWrite, OpenFlags::None, &err, &nb, &ns) || nb || ns) w.fail("C09.overwrite-empties", "file produced by Overwrite is not a valid empty file on reopen: " + err);
+            else if (!try_open(w.shaped(cp), FileMode::ReadWrite, OpenFlags::None, &err, &nb, &ns) || nb || ns) w.fail("C09.overwrite-empties", "file produced by Overwrite is not a valid empty file on reopen: " + err);
         } else if (scen >= 12) {
             // a sequence of sessions on one path in one process: what an earlier session did (rejected mutators of a ReadOnly session
             // included) must not influence what the next open mode delivers
@@ -152,9 +152,9 @@ int exec_special_op(World &w, const Op &op) {
                     if (!node_equal(after_first, d, where)) w.fail("C09.rw-preserves", std::string(scen == 12 ? "ReadWrite open after a ReadOnly session" : "ReadOnly open after a ReadWrite session") + " on the same path does not show the prior content at " + where);
                 } catch (const std::exception &e) { w.fail("C09.rw-preserves", std::string(scen == 12 ? "ReadWrite open after a ReadOnly session" : "ReadOnly open after a ReadWrite session") + " on the same path failed: " + e.what()); }
             } else {
-                if (!try_open(cp, FileMode::Overwrite, OpenFlags::None, &err, &nb, &ns)) w.fail("C09.overwrite-empties", "Overwrite after a ReadOnly session on the same path failed: " + err);
+                if (!try_open(w.shaped(cp), FileMode::Overwrite, OpenFlags::None, &err, &nb, &ns)) w.fail("C09.overwrite-empties", "Overwrite after a ReadOnly session on the same path failed: " + err);
                 else if (nb || ns) w.fail("C09.overwrite-empties", "Overwrite after a ReadOnly session left " + std::to_string(nb) + " blocks / " + std::to_string(ns) + " sections");
-                else if (!try_open(cp, FileMode::ReadOnly, OpenFlags::None, &err, &nb, &ns) || nb || ns) w.fail("C09.overwrite-empties", "file produced by Overwrite after a ReadOnly session is not a valid empty file on reopen: " + err);
+                else if (!try_open(w.shaped(cp), FileMode::ReadOnly, OpenFlags::None, &err, &nb, &ns) || nb || ns) w.fail("C09.overwrite-empties", "file produced by Overwrite after a ReadOnly session is not a valid empty file on reopen: " + err);
             }
         } else if (scen == 11) {
             disk_copy(w.path, cp);
@@ -177,15 +177,15 @@ int exec_special_op(World &w, const Op &op) {
             else {
                 std::string b0; disk_read_all(cp, b0);
                 uint64_t w0 = disk_write_calls(cp);
-                if (try_open(cp, FileMode::ReadOnly, OpenFlags::None)) w.fail("C09.refuse", "ReadOnly open of a file with a defective header returned a usable File");
+                if (try_open(w.shaped(cp), FileMode::ReadOnly, OpenFlags::None)) w.fail("C09.refuse", "ReadOnly open of a file with a defective header returned a usable File");
                 else {
                     std::string b1; disk_read_all(cp, b1);
                     if (b1 != b0 || disk_write_calls(cp) != w0) w.fail("C09.ro-no-write", "a refused ReadOnly open changed the file");
-                    else if (try_open(cp, FileMode::ReadWrite, OpenFlags::None)) w.fail("C09.refuse", "ReadWrite open of a file with a defective header returned a usable File");
+                    else if (try_open(w.shaped(cp), FileMode::ReadWrite, OpenFlags::None)) w.fail("C09.refuse", "ReadWrite open of a file with a defective header returned a usable File");
                     else if (r.chance(1, 2)) {
-                        if (!try_open(cp, FileMode::Overwrite, OpenFlags::None, &err, &nb, &ns)) w.fail("C09.overwrite-empties", "Overwrite of a defective file failed: " + err);
+                        if (!try_open(w.shaped(cp), FileMode::Overwrite, OpenFlags::None, &err, &nb, &ns)) w.fail("C09.overwrite-empties", "Overwrite of a defective file failed: " + err);
                         else if (nb || ns) w.fail("C09.overwrite-empties", "Overwrite of a defective file left content");
-                        else if (!try_open(cp, FileMode::ReadOnly, OpenFlags::None, &err)) w.fail("C09.overwrite-empties", "file produced by Overwrite cannot be reopened: " + err);
+                        else if (!try_open(w.shaped(cp), FileMode::ReadOnly, OpenFlags::None, &err)) w.fail("C09.overwrite-empties", "file produced by Overwrite cannot be reopened: " + err);
                     }
                 }
             }
@@ -284,6 +284,7 @@ int exec_special_op(World &w, const Op &op) {
         if (w.failed()) return 0;
         std::string cp = w.dir + "/ver" + std::to_string(++w.file_gen) + ".nix";
         disk_copy(w.path, cp);
+        std::string cp_name = w.shaped(cp);      // the program may name the file through a link, relatively, ...
         std::vector<int> xs, ys, zs;
         auto axis = [](int c) { std::vector<int> v; for (int d = -2; d <= 2; d++) if (c + d >= 0) v.push_back(c + d); v.push_back(INT_MAX); if (c + 2 < 9) v.push_back(9); return v; };
         xs = axis(lib[0]); ys = axis(lib[1]); zs = axis(lib[2]);
@@ -330,7 +331,7 @@ int exec_special_op(World &w, const Op &op) {
                 int mode = order4[oi] >> 1, force = order4[oi] & 1;
                 bool expect = force ? true : (mode == 0 ? can_read : can_write);
                 std::string err;
-                bool got = try_open(cp, mode == 0 ? FileMode::ReadOnly : FileMode::ReadWrite, force ? OpenFlags::Force : OpenFlags::None, &err);
+                bool got = try_open(cp_name, mode == 0 ? FileMode::ReadOnly : FileMode::ReadWrite, force ? OpenFlags::Force : OpenFlags::None, &err);
                 opens++;
                 if (got != expect) {
                     w.arg_class = std::string(mode == 0 ? "ReadOnly" : "ReadWrite") + (force ? ",Force" : "") + (expect ? ",refused-but-must-open" : ",opened-but-must-refuse");
